@@ -122,12 +122,18 @@ class SyncFileNoClose(object):
         self.rec, self.chunks, self.raise_at, self.i = rec, chunks, raise_at, 0
 
     def read(self, size=-1):
+        left = self.__dict__.get('_left')
+        if left:
+            # the rest of a generated chunk that was larger than the block the framework asked for
+            self._left = left[size:] if size is not None and 0 <= size < len(left) else b''
+            return left[:size] if size is not None and 0 <= size else left
         c = _step(self.rec, self.chunks, self.raise_at, self.i)
         self.i += 1
         if c is None:
             return b''
-        if size is not None and 0 <= size < len(c):
-            raise HarnessError('generated chunk larger than the requested block size %r' % (size,))
+        if size is not None and 0 < size < len(c):
+            self._left = c[size:]
+            return c[:size]
         return c
 
 
@@ -186,12 +192,17 @@ class AsyncFileNoClose(object):
 
     async def read(self, size=-1):
         await asyncio.sleep(0)
+        left = self.__dict__.get('_left')
+        if left:
+            self._left = left[size:] if size is not None and 0 <= size < len(left) else b''
+            return left[:size] if size is not None and 0 <= size else left
         c = _step(self.rec, self.chunks, self.raise_at, self.i)
         self.i += 1
         if c is None:
             return b''
-        if size is not None and 0 <= size < len(c):
-            raise HarnessError('generated chunk larger than the requested block size %r' % (size,))
+        if size is not None and 0 < size < len(c):
+            self._left = c[size:]
+            return c[:size]
         return c
 
 
@@ -1221,6 +1232,11 @@ def _expand_big(case):
             spec['length'] = new_total + (spec['length'] - old_total)
         if spec.get('raise_at') is not None and spec['raise_at'] >= len(old) and old:
             spec['raise_at'] = len(stream_chunks(spec)) - (1 if spec['raise_at'] % 2 else 0)
+        if which == 'bytes' and spec['kind'] in FILE_KINDS:
+            # which write carries which generated chunk depends on the block size the framework reads with (an internal
+            # constant): full-block chunks are judged as a byte stream only, without fault placement
+            spec['raise_at'] = None
+            case['fail_at'] = None
         case['stream'] = spec
     if case.get('fail_at') is not None and case['fail_at'] >= 2 and which in ('items', 'bytes'):
         case['fail_at'] = case['fail_at'] + n % 37
